@@ -126,9 +126,15 @@ def node_level(ck, tier):
         log = []
         orig = RP.MessageReceiver.handle_message_data
 
+        slow_payloads = set()
+
         def logged(self, data, _o=orig):
             log.append((id(self), bytes(data)))
-            return _o(self, data)
+            r_ = _o(self, data)
+            if bytes(data) in slow_payloads:
+                import time as _t
+                _t.sleep(0.15)           # handling this message takes a while (as validating a block does with the real scrypt)
+            return r_
         RP.MessageReceiver.handle_message_data = logged
         try:
             with simnet.Net(seed=rng.getrandbits(30), t0=n.view.time + 100) as net:
@@ -151,7 +157,13 @@ def node_level(ck, tier):
                     if mn_.startswith('skepticoin.networking') and mod_ is not None and 'MAX_MESSAGE_SIZE' in getattr(mod_, '__dict__', {}):
                         patched_lim.append((mod_, mod_.MAX_MESSAGE_SIZE))
                         mod_.MAX_MESSAGE_SIZE = lim
-                streams = [('message-just-under-the-size-limit-then-another/one-write', [hello, near, getpeers[0], getpeers[1]], None, None),
+                slow_one = M.MessageHeader(0, 4242, 0, 1).serialize() + M.GetPeersMessage().serialize()
+                slow_payloads.add(slow_one)
+                pad = [M.MessageHeader(0, 3000 + i, 0, 1).serialize() + M.GetPeersMessage().serialize() for i in range(40)]
+                streams = [('slow-message-then-more-in-the-same-read/one-write', [hello, slow_one] + getpeers[:4], None, None),
+                           ('first-write-of-exactly-1024-bytes', [hello] + pad, None, 'first1024'),
+                           ('first-write-of-exactly-2048-bytes', [hello] + pad, None, 'first2048'),
+                           ('message-just-under-the-size-limit-then-another/one-write', [hello, near, getpeers[0], getpeers[1]], None, None),
                            ('message-just-under-the-size-limit-then-another/1000-byte-writes', [hello, near, getpeers[0], getpeers[1]], None, 1000),
                            ('1300-small-frames-in-one-write', [hello] + getpeers, None, None),
                            ('unsupported-request-then-more/one-write', [hello, unsupported] + getpeers[:3], 2, None),
@@ -164,6 +176,11 @@ def node_level(ck, tier):
                     del log[:]
                     data = b''.join(frame(p_) for p_ in payloads)
                     pos = 0
+                    if isinstance(chunk, str) and chunk.startswith('first'):
+                        first = int(chunk[5:])
+                        atk.send(data[:first])            # the bytes available at the first read event are an exact multiple of the read size
+                        sn.pump()
+                        pos, chunk = first, None
                     while pos < len(data):
                         k = len(data) if chunk is None else chunk
                         try:
